@@ -173,6 +173,11 @@ def run(R):
         chk = [t for t in cx.cfg.nodes if t.kind == 'test' and is_len_check(t)]
         gen = [t for t in cx.cfg.nodes if t.kind == 'test' and isinstance(t.ast, ast.Compare) and len(t.ast.ops) == 1 and isinstance(t.ast.ops[0], ast.NotEq)
                and 'TYPE_GENERIC' in {ast.unparse(t.ast.left).rsplit('.', 1)[-1], ast.unparse(t.ast.comparators[0]).rsplit('.', 1)[-1]}]
+        if not gen:
+            # the prefix chosen by a conditional expression: `('' if typ == TYPE_GENERIC else f'{typ}=') + ..`
+            gen = [x for x in ast.walk(cx.f.node) if isinstance(x, ast.IfExp) and isinstance(x.test, ast.Compare) and len(x.test.ops) == 1
+                   and isinstance(x.test.ops[0], (ast.Eq, ast.NotEq))
+                   and 'TYPE_GENERIC' in {ast.unparse(x.test.left).rsplit('.', 1)[-1], ast.unparse(x.test.comparators[0]).rsplit('.', 1)[-1]}]
         if chk and gen:
             R.ok('C09.SIB.2', inst, site(cx, chk[0].ast))
         else:
@@ -304,23 +309,42 @@ def run(R):
     # an octet is written raw iff it is in CHARSET and not a metacharacter, otherwise as %XX (upper-case hexadecimal)
     from ..fold import Folder, CannotFold
     raw_ok = cs - {'%', '='}
-    for fq in (CM + '.to_str', CM + '.to_canonical_uri'):
-        dx = ctx(R, fq)
+    def per_item_tables(dx, domain):
+        """[(construct, [text for each member of domain])] for every join-over-generator / append-loop of dx that folds for the whole domain"""
         fn = dx.f.node
         closures = {x.name: x for x in fn.body if isinstance(x, ast.FunctionDef)}
         cands = []
+        params = {a_.arg for a_ in fn.args.args}
+        derived = set(params)
+        for _ in range(2):
+            for a_ in ast.walk(fn):
+                if isinstance(a_, ast.Assign) and len(a_.targets) == 1 and isinstance(a_.targets[0], ast.Name) \
+                        and any(isinstance(y, ast.Name) and y.id in derived for y in ast.walk(a_.value)):
+                    derived.add(a_.targets[0].id)
+
+        def over_input(it):
+            # the loop runs over (a part of) the function's input, and is not nested in another loop
+            return any(isinstance(y, ast.Name) and y.id in derived for y in ast.walk(it))
+        nested = {id(y) for x in ast.walk(fn) if isinstance(x, (ast.For, ast.While)) for b_ in x.body for y in ast.walk(b_)}
         for x in ast.walk(fn):
+            if id(x) in nested and isinstance(x, ast.For):
+                continue
+            if isinstance(x, ast.For) and not over_input(x.iter):
+                continue
+            if isinstance(x, ast.Call) and isinstance(x.func, ast.Attribute) and x.func.attr == 'join' and len(x.args) == 1 \
+                    and isinstance(x.args[0], (ast.GeneratorExp, ast.ListComp)) and not over_input(x.args[0].generators[0].iter):
+                continue
             if isinstance(x, ast.Call) and isinstance(x.func, ast.Attribute) and x.func.attr == 'join' and len(x.args) == 1 \
                     and isinstance(x.args[0], (ast.GeneratorExp, ast.ListComp)) and len(x.args[0].generators) == 1 \
                     and isinstance(x.args[0].generators[0].target, ast.Name) and not x.args[0].generators[0].ifs:
                 g = x.args[0]
                 cands.append((x, lambda b, g=g: Folder(P, dx.f.mod, closures).ev(g.elt, {g.generators[0].target.id: b})))
             elif isinstance(x, ast.For) and isinstance(x.target, ast.Name) and not x.orelse:
-                accs = {c.func.value.id for c in ast.walk(x) if isinstance(c, ast.Call) and isinstance(c.func, ast.Attribute) and c.func.attr == 'append'
+                accs = {c.func.value.id for c in ast.walk(x) if isinstance(c, ast.Call) and isinstance(c.func, ast.Attribute) and c.func.attr in ('append', 'extend')
                         and isinstance(c.func.value, ast.Name)} | {a.target.id for a in ast.walk(x) if isinstance(a, ast.AugAssign) and isinstance(a.target, ast.Name)}
                 if len(accs) == 1:
                     acc = next(iter(accs))
-                    is_list = any(isinstance(c, ast.Call) and isinstance(c.func, ast.Attribute) and c.func.attr == 'append' for c in ast.walk(x))
+                    is_list = any(isinstance(c, ast.Call) and isinstance(c.func, ast.Attribute) and c.func.attr in ('append', 'extend') for c in ast.walk(x))
 
                     def per(b, x=x, acc=acc, is_list=is_list):
                         env = {x.target.id: b, acc: [] if is_list else ''}
@@ -330,11 +354,15 @@ def run(R):
         tables = []
         for (x, per) in cands:
             try:
-                tab = [per(b) for b in range(256)]
-            except (CannotFold, KeyError, IndexError, TypeError, ValueError):
+                tab = [per(b) for b in domain]
+            except (CannotFold, KeyError, IndexError, TypeError, ValueError, AttributeError):
                 continue
             if all(isinstance(t, str) for t in tab):
                 tables.append((x, tab))
+        return tables
+    for fq in (CM + '.to_str', CM + '.to_canonical_uri'):
+        dx = ctx(R, fq)
+        tables = per_item_tables(dx, range(256))
         inst = f'{fq} :: an octet is written raw iff it is in CHARSET and not a metacharacter, else %XX'
         if not tables:
             R.defer(f'{fq}: the octet -> text rule was not found in a foldable form (cannot decide C09.TBL.2 for it)')
@@ -354,13 +382,28 @@ def run(R):
                    site(dx, x))
         else:
             R.ok('C09.TBL.2', inst, dx.f.loc(), f'{len(tables)} rule(s) folded over 256 octets')
-    ec = ctx(R, CM + '.escape_str.<escape_chr>')
-    ts = [t for t in ec.cfg.nodes if t.kind == 'test']
-    inst = ec.qual + ' :: passes exactly CHARSET'
-    if len(ts) == 1 and ast.unparse(ts[0].ast) == 'ch in CHARSET' and any("f'%{x:02X}'" in ast.unparse(r.ast) for r in returns(ec)):
-        R.ok('C09.TBL.2', inst, ec.f.loc())
-    else:
-        R.fail('C09.TBL.2', inst, ec.qual, 'def escape_chr', 'escape_str does not escape exactly the characters outside CHARSET as %XX of their UTF-8 bytes', ec.f.loc())
+    if (CM + '.escape_str.<escape_chr>') not in P.funcs:
+        # the nested helper is gone (inlined / replaced by a loop): the character -> text rule of escape_str folded for U+0000..U+02FF
+        ex_ = ctx(R, CM + '.escape_str')
+        chars = [chr(i) for i in range(0x300)]
+        tabs_ = per_item_tables(ex_, chars)
+        inst = ex_.qual + ' :: passes exactly CHARSET'
+        if not tabs_:
+            raise AnalysisError('Component.escape_str: the character -> text rule was not found in a foldable form (C09.TBL.2)')
+        badc = [(c_, t_[i_]) for (_x, t_) in tabs_ for i_, c_ in enumerate(chars)
+                if t_[i_] != (c_ if c_ in cs else ''.join('%%%02X' % b_ for b_ in c_.encode('utf-8')))]
+        if badc:
+            R.fail('C09.TBL.2', inst, ex_.qual, tabs_[0][0], f'{len(badc)} character(s) are not passed / escaped as the rule says, e.g. {badc[0][0]!r} -> {badc[0][1]!r}', ex_.f.loc())
+        else:
+            R.ok('C09.TBL.2', inst, ex_.f.loc(), f'folded over {len(chars)} characters')
+    ec = ctx(R, CM + '.escape_str.<escape_chr>') if (CM + '.escape_str.<escape_chr>') in P.funcs else None
+    if ec is not None:
+        ts = [t for t in ec.cfg.nodes if t.kind == 'test']
+        inst = ec.qual + ' :: passes exactly CHARSET'
+        if len(ts) == 1 and ast.unparse(ts[0].ast) == 'ch in CHARSET' and any("f'%{x:02X}'" in ast.unparse(r.ast) for r in returns(ec)):
+            R.ok('C09.TBL.2', inst, ec.f.loc())
+        else:
+            R.fail('C09.TBL.2', inst, ec.qual, 'def escape_chr', 'escape_str does not escape exactly the characters outside CHARSET as %XX of their UTF-8 bytes', ec.f.loc())
     cf = ctx(R, CM + '.from_str')
     inst = cf.qual + ' :: characters outside CHARSET refused; % and = are the only metacharacters'
     lits = sorted({ast.unparse(t.ast) for t in cf.cfg.nodes if t.kind == 'test' and isinstance(t.ast, ast.Compare) and isinstance(t.ast.comparators[0], ast.Constant)
